@@ -421,7 +421,8 @@ func (mw *msgWriter) writePart(part *Part, charset Charset) {
 	if mw.depth > 0 {
 		mimeHeader := textproto.MIMEHeader{}
 		if part.description != "" {
-			mimeHeader.Add(string(HeaderContentDescription), part.description)
+			mimeHeader.Add(string(HeaderContentDescription),
+				mw.encoder.Encode(mw.charset.String(), part.description))
 		}
 		mimeHeader.Add(string(HeaderContentTransferEnc), contentTransferEnc)
 		mimeHeader.Add(string(HeaderContentType), contentType)
